@@ -74,6 +74,18 @@ func genSteps(t *rapid.T, tr *ce.Tree) []step {
 		}
 		steps = append(steps, step{kind: "block", node: n})
 		delivered = append(delivered, n)
+		// scenario bias: flush, take a recent block out and back in, then lose
+		// the cache (re-open without the final flush)
+		if rapid.IntRange(0, 7).Draw(t, "combo") == 0 {
+			x := delivered[len(delivered)-1-rapid.IntRange(0, min(2, len(delivered)-1)).Draw(t, "comboBack")]
+			if rapid.Bool().Draw(t, "comboFlush") {
+				steps = append(steps, step{kind: "flush", mode: blockchain.FlushRequired})
+			}
+			steps = append(steps, step{kind: "invalidate", node: x}, step{kind: "reconsider", node: x})
+			if rapid.Bool().Draw(t, "comboReopen") {
+				steps = append(steps, step{kind: "reopen", flag: false})
+			}
+		}
 	}
 	// tail: reconsider/invalidate/flush/reopen
 	k := rapid.IntRange(0, 5).Draw(t, "tail")
